@@ -162,6 +162,7 @@ type caseT struct {
 	FragSeed  int64       `json:"frag_seed,omitempty"`
 	Content   string      `json:"content,omitempty"` // zero | compressible | utf8 | random
 	Level     int         `json:"level,omitempty"`
+	Final     bool        `json:"bfinal_ending,omitempty"` // DEFLATE stream ends with a BFINAL=1 block (RFC 7692 7.2.3.4)
 	Op        int         `json:"op,omitempty"` // control opcode
 	Seg       nbdrive.Seg `json:"seg"`
 	// informational
@@ -440,11 +441,17 @@ func runCompressed(c caseT) {
 	masked := !c.Client
 	m := wsref.Message{Type: byte(c.Type), Payload: content(c, c.Size)}
 	cp := wsref.Deflate(m.Payload, c.Level)
+	if c.Final {
+		cp = wsref.DeflateFinal(m.Payload, c.Level)
+	}
 	frames := wsref.Fragment(wsref.Message{Type: m.Type, Payload: cp}, wsref.FragmentOpts{Cuts: cutsFor(rng, len(cp), c.Frags), Masked: masked, NextKey: keyGen(rng)})
 	frames[0].Rsv1 = true
 	frames = append(frames, wsref.Frame{Fin: true, Opcode: wsref.OpBinary, Masked: masked, Key: [4]byte{1, 2, 3, 4}, Payload: []byte(sentinel)})
 	o := drive(c, wsref.Encode(frames))
 	how := "compressed"
+	if c.Final {
+		how = "compressed-bfinal"
+	}
 	ok := true
 	switch {
 	case c.Size > c.L:
@@ -722,6 +729,13 @@ func main() {
 						}
 						c.Seg = segFor(rng, size/50)
 						step(c, false)
+						if size >= L-1 && size <= L+2 && c.Level != 0 && c.Level != -2 {
+							// the same message with the stream ended by a BFINAL=1 block: the
+							// decompressor hands out the last bytes together with end-of-stream
+							c2 := c
+							c2.Final = true
+							step(c2, false)
+						}
 					}
 				}
 				// ---- the bomb: 1000*L, capped
